@@ -291,8 +291,11 @@ class TopoRunner:
             kw = {}
             if sub:
                 nports = {"nic2": 2, "nic25": 2, "nic1": 1, "fpga": 2}.get(o["model"], 0)
+                if_ids = [self._sid() for _ in range(nports)]
+                if o.get("ifcid") and nports:
+                    if_ids[-1] = "fixed-" + o["ifcid"]      # caller-supplied id of the last interface (may be taken)
                 kw = dict(node_id=self._sid(), network_service_node_id=self._sid(),
-                          interface_node_ids=[self._sid() for _ in range(nports)],
+                          interface_node_ids=if_ids,
                           interface_labels=[Labels(mac="00:00:00:00:00:%02x" % (i + 1)) for i in range(nports)])
             n.add_component(name=conc_name(o["name"]), ctype=ComponentType[ct], model=model, **kw, **self._bad_kwargs(o))
             return none
